@@ -101,7 +101,7 @@ def scenario(ctx, p):
     n = p["n"]
     kinds = [ctx.choose(f"e{i}", ["sym", "T2", "T8", 2.5]) for i in range(n)]
     elems = [mk_elem(ctx, k, f"t{i}") for i, k in enumerate(kinds)]
-    vols = [ctx.real(f"v{i}", 1, 900) for i in range(n)]
+    vols = [ctx.real(f"v{i}", 0, 900) for i in range(n)]   # a selected tip may carry volume 0
     c.update(wl=wl, kinds=kinds, elems=elems, vols=vols, single=False)
     if p["cmd"] == "evo_wash":
         wl.evo_wash(tips=elems, waste_location=(52, 2), cleaner_location=(52, 1))
